@@ -19,7 +19,7 @@ def dbg(msg):
 
 
 class ForkCtl:
-    def __init__(self, ctx, scratch, tokens, max_waiting=300):
+    def __init__(self, ctx, scratch, tokens, max_waiting=48):
         self.scratch = scratch
         self.tokens = tokens                       # semaphore: processes allowed to run (the root job holds one already)
         self.alive = ctx.Value('i', 0)             # descendants not yet exited
